@@ -73,7 +73,7 @@ CONFIG = dict(
                    'that the harness replays against the Go code: Toposort never panics, returns success iff the graph is acyclic, and on success a '
                    'permutation of the nodes with every edge forward (refinement to an abstract Kahn algorithm, fuel bound proved); FindCycle, for '
                    'every map iteration order, returns a real cycle through the seed and returns one whenever one exists; removal followed by '
-                   'ReindexNode restores the domain (two-level invariant). All 19 theorems closed under the global context (no axioms).',
+                   'ReindexNode restores the domain (two-level invariant); for operation sequences that name nodes by the rank of a byte string (what the harness does, the empty string included) no condition on names remains (C15_all_names_*, after fix F26). All 22 theorems closed under the global context (no axioms).',
         level_note='Trusted: the correspondence between Model.v and toposort.go (tested, not proved: about 28 000 cases per quick run, all digraphs on <=3 '
                    'nodes / 4 nodes, random graphs to 30 nodes, malformed sequences, adversarial name tables, graphs up to 1250 nodes through the model and '
                    'up to 65 537 (thorough 10^6) nodes through the independent oracle; fine comparison of every return value and of the exact order), '
